@@ -286,7 +286,7 @@ def chain(P, v, A0):
     prev = tm.ite(tm.eq(t, 0), oend(v), oend(tm.seqnth(P, tm.sub(t, 1))))
     return [("walk-follows-the-overhangs", tm.forall_range(t, 0, n, tm.and_(
         tm.eq(ostart(tm.seqnth(P, t)), prev), tm.eq(tm.select(A0, ostart(tm.seqnth(P, t))), tm.seqnth(P, t)),
-        tm.ne(ostart(tm.seqnth(P, t)), ostart(v))))),
+        tm.ne(tm.seqnth(P, t), ABSENT), tm.ne(ostart(tm.seqnth(P, t)), ostart(v))))),
             ("no-start-overhang-used-twice", tm.forall([t, u], tm.implies(
                 tm.and_(tm.le(0, t), tm.lt(t, u), tm.lt(u, n)),
                 tm.ne(ostart(tm.seqnth(P, t)), ostart(tm.seqnth(P, u))))))]
@@ -460,3 +460,309 @@ class GenerateAssembly(Contract):
 
 
 CONTRACTS = [Init(), GenerateModulesMap(), GenerateAssembly()]
+
+
+# ------------------------------------------------------------------------------------------------ citations (abstract cells)
+# Heap cells moclo writes on its inputs (DESIGN 2.3): per entity e, CIT[e] = the citation qualifiers of all
+# features of e's record, REFS[e] = its reference list.  _deref_citations / _ref_citations transform them by
+# D / R / RR (uninterpreted here; their pointwise meaning is the subject of C10).
+CITS, REFL = "CitS", "RefL"
+CIT_ARR = tm.arr_sort(INT, CITS)
+REF_ARR = tm.arr_sort(INT, REFL)
+
+
+def D(c, r):
+    return tm.app("cit_deref", CITS, c, r)
+
+
+def R(c, r):
+    return tm.app("cit_ref", CITS, c, r)
+
+
+def RR(c, r):
+    return tm.app("refs_after_ref", REFL, c, r)
+
+
+def init_cells(ex, st, prefix="cells"):
+    for s_ in (CITS, REFL):
+        if s_ not in ex.models.sorts:
+            ex.models.sorts.append(s_)
+    st.ghost["CIT"] = tm.V(prefix + ".CIT", CIT_ARR)
+    st.ghost["REFS"] = tm.V(prefix + ".REFS", REF_ARR)
+
+
+def rec_entity(st, rec):
+    e = st.get(rec, "entity")
+    return e.t if e is not None else None
+
+
+class DerefCitations(Contract):
+    """ASSUMED at this level (trusted_body): every bracketed index of every citation qualifier of the record is
+    replaced by the reference it denotes.  Effect on the cells: CIT[e] := D(CIT[e], REFS[e])."""
+    file, qual = FILE, "AssemblyManager._deref_citations"
+    props = ("C07", "C10")
+    trusted_body = True
+
+    def setup(self, ex, st, variant):
+        mgr, v, M = mk_manager(ex, st)
+        init_cells(ex, st)
+        e = abstract_entity(st, "AbstractModule", tm.V("e", INT))
+        return dict(self=mgr, record=st.get(e, "record"))
+
+    def result(self, ex, st, a):
+        st = st.fork()
+        e = rec_entity(st, a["record"])
+        if e is None:
+            raise Exception("deref on a record that is not an input")
+        cit, refs = st.ghost["CIT"], st.ghost["REFS"]
+        st.ghost["CIT"] = tm.store(cit, e, D(tm.select(cit, e), tm.select(refs, e)))
+        return [(st, NONE)]
+
+
+class RefCitations(Contract):
+    """ASSUMED at this level (trusted_body): every citation qualifier is rewritten as the bracketed 1-based index of
+    its reference in the record's reference list, new references being appended.
+    Effect: CIT[e] := R(CIT[e], REFS[e]); REFS[e] := RR(CIT[e], REFS[e])."""
+    file, qual = FILE, "AssemblyManager._ref_citations"
+    props = ("C07", "C10")
+    trusted_body = True
+
+    def setup(self, ex, st, variant):
+        mgr, v, M = mk_manager(ex, st)
+        init_cells(ex, st)
+        e = abstract_entity(st, "AbstractModule", tm.V("e", INT))
+        return dict(self=mgr, record=st.get(e, "record"))
+
+    def result(self, ex, st, a):
+        st = st.fork()
+        e = rec_entity(st, a["record"])
+        if e is None:
+            # the product: its own cells (fresh record, not an input)
+            st.ghost["product_cited"] = True
+            return [(st, NONE)]
+        cit, refs = st.ghost["CIT"], st.ghost["REFS"]
+        c, r = tm.select(cit, e), tm.select(refs, e)
+        st.ghost["CIT"] = tm.store(cit, e, R(c, r))
+        st.ghost["REFS"] = tm.store(refs, e, RR(c, r))
+        return [(st, NONE)]
+
+
+class SaveCitations(Contract):
+    """ASSUMED at this level (trusted_body): returns a copy of the citation qualifiers of every input feature;
+    touches nothing.  Abstractly: a snapshot of CIT."""
+    file, qual = FILE, "AssemblyManager._save_citations"
+    props = ("C07", "C10")
+    trusted_body = True
+
+    def setup(self, ex, st, variant):
+        mgr, v, M = mk_manager(ex, st)
+        init_cells(ex, st)
+        return dict(self=mgr)
+
+    def result(self, ex, st, a):
+        st = st.fork()
+        snap = VObj("CitSnapshot")
+        st.set_inplace(snap, "cit", VT(st.ghost["CIT"], "list"))
+        return [(st, snap)]
+
+
+class RestoreCitations(Contract):
+    """ASSUMED at this level (trusted_body): writes the saved citation qualifiers back, entry by entry.
+    Abstractly: CIT[e] := saved[e] for every input e (the only cells the passes in between can have written)."""
+    file, qual = FILE, "AssemblyManager._restore_citations"
+    props = ("C07", "C10")
+    trusted_body = True
+
+    def setup(self, ex, st, variant):
+        mgr, v, M = mk_manager(ex, st)
+        init_cells(ex, st)
+        snap = VObj("CitSnapshot")
+        st.set_inplace(snap, "cit", VT(tm.V("saved", CIT_ARR), "list"))
+        return dict(self=mgr, citations=snap)
+
+    def result(self, ex, st, a):
+        st = st.fork()
+        E = ex.models.list_term(st, st.get(a["self"], "elements"), INT)
+        saved = st.get(a["citations"], "cit").t
+        cur = st.ghost["CIT"]
+        new = tm.fresh("CIT", CIT_ARR)
+        e, i = tm.V("e", INT), tm.V("i", INT)
+        member = tm.exists_range(i, 0, tm.seqlen(E), tm.eq(tm.seqnth(E, i), e))
+        st = st.assume(tm.forall([e], tm.eq(tm.select(new, e), tm.ite(member, tm.select(saved, e), tm.select(cur, e)))))
+        st.ghost["CIT"] = new
+        return [(st, NONE)]
+
+
+class AnnotateAssembly(Contract):
+    """the product carries the requested id and name, circular topology, a molecule type and a comment naming
+    the vector and every supplied module"""
+    file, qual = FILE, "AssemblyManager._annotate_assembly"
+    props = ("C09",)
+
+    def setup(self, ex, st, variant):
+        mgr, v, M = mk_manager(ex, st)
+        init_cells(ex, st)
+        ex.models.elem_kind = "AbstractModule"
+        return dict(self=mgr, assembly=ex.models.sym_record(st, "CircularRecord", "assembly", ann_keys=()))
+
+    def ensures(self, ex, pre, st, a, result):
+        asm = a["assembly"]
+        items = st.get(st.get(asm, "annotations"), "items")
+        out = [("carries-requested-id", tm.eq(st.get(asm, "id").t, pre.get(a["self"], "id").t)),
+               ("carries-requested-name", tm.eq(st.get(asm, "name").t, pre.get(a["self"], "name").t))]
+        for key, want in (("topology", "circular"), ("molecule_type", "ds-DNA"), ("data_file_division", "SYN"),
+                          ("organism", "synthetic DNA construct"), ("source", "synthetic DNA construct")):
+            v = items.get(key)
+            out.append(("annotation-%s" % key, tm.eq(v.t, want) if isinstance(v, VT) else tm.FALSE))
+        c = items.get("comment")
+        ok = isinstance(c, VList) and len(st.get(c, "items")) == 3
+        out.append(("comment-has-generator-vector-modules-lines", tm.B(ok)))
+        if ok:
+            lines = st.get(c, "items")
+            vid = pre.get(pre.get(pre.get(a["self"], "vector"), "record"), "id").t
+            out.append(("comment-names-the-vector", tm.eq(lines[1].t, tm.concat("Vector: ", vid))))
+            M = ex.models.list_term(pre, pre.get(a["self"], "modules"), INT)
+            out.append(("comment-names-every-module-in-argument-order",
+                        tm.eq(lines[2].t, tm.concat("Modules: ", tm.app("join_ids", STR, M)))))
+        out.append(("text-untouched", tm.eq(ex.models.rec_text(st, asm), ex.models.rec_text(pre, asm))))
+        return out
+
+    def result(self, ex, st, a):
+        st = st.fork()
+        asm = a["assembly"]
+        st.set_inplace(asm, "id", st.get(a["self"], "id"))
+        st.set_inplace(asm, "name", st.get(a["self"], "name"))
+        d = VDict(new_oid())
+        vid = st.get(st.get(st.get(a["self"], "vector"), "record"), "id").t
+        M = ex.models.list_term(st, st.get(a["self"], "modules"), INT)
+        st, comment = ex.new_list(st, [VT(tm.fresh("generated_with", STR)), VT(tm.concat("Vector: ", vid)),
+                                       VT(tm.concat("Modules: ", tm.app("join_ids", STR, M)))])
+        st.set_inplace(d, "items", {"topology": VT(tm.S("circular")), "molecule_type": VT(tm.S("ds-DNA")),
+                                    "data_file_division": VT(tm.S("SYN")),
+                                    "organism": VT(tm.S("synthetic DNA construct")),
+                                    "source": VT(tm.S("synthetic DNA construct")), "comment": comment})
+        st.set_inplace(asm, "annotations", d)
+        return [(st, NONE)]
+
+
+class ElementsLoop(LoopSpec):
+    """for elem in self.elements: self._(de)ref_citations(elem.record) -- pointwise effect on the cells"""
+
+    def __init__(self, con, which):
+        self.con, self.which = con, which
+
+    def havoc(self, ex, st, ctx, modified):
+        st = LoopSpec.havoc(self, ex, st, ctx, set())
+        st.env.pop("elem", None)
+        st.ghost["CIT"] = tm.fresh("CIT", CIT_ARR)
+        st.ghost["REFS"] = tm.fresh("REFS", REF_ARR)
+        return st
+
+    def invariant(self, ex, st, ctx):
+        E = self.con.E
+        k = ctx["k"]
+        cit0, refs0 = self.con.cells_before[self.which]
+        cit, refs = st.ghost["CIT"], st.ghost["REFS"]
+        i, e = tm.V("i", INT), tm.V("e", INT)
+        done = tm.exists_range(i, 0, k, tm.eq(tm.seqnth(E, i), e))
+        if self.which == "deref":
+            new_c = D(tm.select(cit0, e), tm.select(refs0, e))
+            new_r = tm.select(refs0, e)
+        else:
+            new_c = R(tm.select(cit0, e), tm.select(refs0, e))
+            new_r = RR(tm.select(cit0, e), tm.select(refs0, e))
+        return [("cells-of-processed-elements-transformed-others-untouched",
+                 tm.forall([e], tm.and_(tm.eq(tm.select(cit, e), tm.ite(done, new_c, tm.select(cit0, e))),
+                                        tm.eq(tm.select(refs, e), tm.ite(done, new_r, tm.select(refs0, e)))))),
+                ("k-in-range", tm.le(k, tm.seqlen(E)))]
+
+
+class Assemble(Contract):
+    """assemble(): the composition.  Frame (C07): on *every* exit -- normal return, DuplicateModules,
+    InvalidSequence, MissingModule -- the citation cells and reference lists of every input equal their
+    pre-state (the reference list modulo Absent = [])."""
+    file, qual = FILE, "AssemblyManager.assemble"
+    props = ("C07", "C10", "C01", "C03", "C17")
+
+    def setup(self, ex, st, variant):
+        mgr, v, M = mk_manager(ex, st)
+        init_cells(ex, st)
+        self.E = tm.seqcat(M.t, tm.sequnit(tm.V("v", INT)))
+        self.cells_before = {}
+        con = self
+
+        class _Deref(ElementsLoop):
+            def invariant(self_, ex_, st_, ctx):
+                con.cells_before.setdefault("deref", (ctx["pre"].ghost["CIT"], ctx["pre"].ghost["REFS"]))
+                return ElementsLoop.invariant(self_, ex_, st_, ctx)
+
+        class _Ref(ElementsLoop):
+            def invariant(self_, ex_, st_, ctx):
+                con.cells_before.setdefault("ref", (ctx["pre"].ghost["CIT"], ctx["pre"].ghost["REFS"]))
+                return ElementsLoop.invariant(self_, ex_, st_, ctx)
+
+        self.loops = {0: _Deref(self, "deref"), 1: _Ref(self, "ref")}
+        return dict(self=mgr)
+
+    def requires(self, ex, st, a):
+        M = ex.models.list_term(st, st.get(a["self"], "modules"), INT)
+        v = st.get(st.get(a["self"], "vector"), "ident").t
+        E = ex.models.list_term(st, st.get(a["self"], "elements"), INT)
+        i, j = tm.V("i", INT), tm.V("j", INT)
+        distinct = tm.forall([i, j], tm.implies(tm.and_(tm.le(0, i), tm.lt(i, j), tm.lt(j, tm.seqlen(E))),
+                                                tm.ne(tm.seqnth(E, i), tm.seqnth(E, j))))
+        return inv_mgr(M, v) + [("elements-are-modules-then-vector", tm.eq(E, tm.seqcat(M, tm.sequnit(v)))),
+                                ("inputs-are-distinct-objects", distinct)]
+
+    def assumes(self, ex, st, a):
+        # restoration law of the two citation passes (C10.L3; assumed here, see DerefCitations/RefCitations)
+        # (the code no longer re-references its inputs: no restoration law is needed, only that a reference list
+        #  is equivalent to itself)
+        r = tm.V("r_", REFL)
+        return [tm.forall([r], tm.app("refs_equiv", BOOL, r, r))]
+
+    def raises(self, ex, st, a):
+        M = ex.models.list_term(st, st.get(a["self"], "modules"), INT)
+        return [("InvalidSequence", some_invalid(M), None),
+                ("DuplicateModules", tm.or_(dup_cond(M), rcdup_cond(M)), None),
+                ("MissingModule", None, None)]
+
+    def _frame(self, ex, pre, st, a):
+        E = ex.models.list_term(pre, pre.get(a["self"], "elements"), INT)
+        cit0, refs0 = pre.ghost["CIT"], pre.ghost["REFS"]
+        cit, refs = st.ghost["CIT"], st.ghost["REFS"]
+        e = tm.V("e", INT)
+        return [("citation-qualifiers-of-every-input-as-before",
+                 tm.forall([e], tm.eq(tm.select(cit, e), tm.select(cit0, e)))),
+                ("reference-list-of-every-input-as-before-up-to-absent-equals-empty",
+                 tm.forall([e], tm.app("refs_equiv", BOOL, tm.select(refs, e), tm.select(refs0, e))))]
+
+    def ensures(self, ex, pre, st, a, result):
+        need_cat(ex.models)
+        out = self._frame(ex, pre, st, a)
+        v = pre.get(pre.get(a["self"], "vector"), "ident").t
+        P = st.ghost.get("path")
+        if P is not None and isinstance(result, VObj):
+            out.append(("product-is-cat-of-the-walk-then-the-vector-fragment",
+                        tm.eq(ex.models.rec_text(st, result), tm.concat(tm.app("cat", STR, P), frag(v)))))
+            out.append(("product-carries-requested-id", tm.eq(st.get(result, "id").t, pre.get(a["self"], "id").t)))
+        else:
+            out.append(("returns-the-product", tm.FALSE))
+        return out
+
+    def ensures_exc(self, ex, pre, st, a, exc):
+        return self._frame(ex, pre, st, a)
+
+    def result(self, ex, st, a):
+        st = st.fork()
+        st.ghost["path"] = tm.fresh("P", SEQI)
+        r = ex.models.sym_record(st, "CircularRecord", "product!%d" % next(tm._fresh), ann_keys=("topology",))
+        return [(st, r)]
+
+    def model_terms(self, ex, st, a):
+        M = ex.models.list_term(st, st.get(a["self"], "modules"), INT)
+        return dict(M=M, v=st.get(st.get(a["self"], "vector"), "ident").t)
+
+
+CONTRACTS = [Init(), GenerateModulesMap(), GenerateAssembly(), DerefCitations(), RefCitations(), SaveCitations(),
+             RestoreCitations(), AnnotateAssembly(), Assemble()]
